@@ -163,7 +163,10 @@ class VK:
             s.lhs[name], s.rhs[name] = a, b
             d = a - b
             if tol is None:
-                if ring.iszero(d):
+                if len(d.t) > 60 and s._probe_nonzero(d):
+                    k = s._family_count[fam] = s._family_count.get(fam, 0) + 1
+                    s._record(name, "refuted", "ring", t0, "non-zero at a sample point inside requires (numeric probe with rounding-error bound; exact normal form skipped)", fam)
+                elif ring.iszero(d):
                     s._record(name, "discharged", "ring", t0, "", fam)
                 else:
                     k = s._family_count[fam] = s._family_count.get(fam, 0) + 1
@@ -174,6 +177,45 @@ class VK:
                     s._record(name, "discharged", "ring-tol", t0, f"sum|c|={float(n):.3g}<={tol:g}", fam)
                 else:
                     s._record(name, "refuted-tol", "ring-tol", t0, f"sum|c|={float(n):.3g}>{tol:g}; residual {ring.residual(d)!r}", fam)
+
+    def _probe_env(s):
+        """a float point inside requires for cheap refutation probes (None if none is found)"""
+        if getattr(s, "_penv", "unset") != "unset":
+            return s._penv
+        s._penv = None
+        rng = random.Random(12345)
+        for _ in range(60):
+            env = {}
+            for g, nm in enumerate(ring.GENS):
+                if g in ring.DEFS:
+                    continue
+                if nm in s.samplers:
+                    c, sp = s.samplers[nm]
+                    env[g] = c + sp * rng.uniform(-1, 1)
+                else:
+                    env[g] = rng.uniform(0.4, 1.6)
+            try:
+                if _assumptions_hold(env):
+                    s._penv = env
+                    break
+            except Exception:
+                continue
+        return s._penv
+
+    def _probe_nonzero(s, d):
+        env = s._probe_env()
+        if env is None:
+            return False
+        try:
+            env = dict(env)
+            rng = random.Random(len(ring.GENS))
+            for g in d.gens():  # variables created after the probe point was drawn
+                if g not in ring.DEFS and g not in env:
+                    env[g] = rng.uniform(0.4, 1.6)
+            v, a = ring.probe(d, env)
+        except Exception:
+            return False
+        return a > 0 and abs(v) > 1e-6 * a
 
     def ensures_zero(s, clause, arr, tol=None):
         a = np.asarray(arr, dtype=object if s.sym else float)
